@@ -101,6 +101,7 @@ def transcribe(events):
     pending_write = None
     pending_close = None
     closed = set()
+    waiting = []  # readers that were created and have not logged anything since
     for event in events:
         kind = event["ev"]
         sid = event["sid"]
@@ -114,13 +115,31 @@ def transcribe(events):
                 raise Skip("the Cid object changed its shape between sessions")
             rows = []
             rows_of[sid] = rows
+            if current is not None and current in waiting and len(waiting) > 1:
+                raise Skip("several readers wait to be read (the specification has room for one)")
             current = sid
+            if event["kind"] == "reader":
+                waiting.append(sid)  # created, nothing logged yet
+            if len(waiting) > 2:
+                raise Skip("several readers wait to be read (the specification has room for one)")
             result.append({"ev": "open", "sid": sid, "kind": event["kind"], "mode": event.get("mode") or "raise",
                            "until": -1 if event.get("until") is None else event["until"], "sizes": event["sizes"],
                            "rows": rows})
             continue
         if sid != current:
-            raise Skip("sessions of one Cid interleave (the sequential specification does not apply)")
+            # a reader that was created earlier and has logged nothing since is read now (Park / Resume of Session.tla);
+            # the specification has room for one such reader
+            if kind == "reader_start" and waiting == [sid]:
+                current = sid
+                if pending_write is not None:
+                    # the session before was dropped after a rejected write: the bookkeeping after it was never logged
+                    pending_write["emitted"] = False
+                    pending_write["sizes"] = []
+                    pending_write = None
+            else:
+                raise Skip("sessions of one Cid interleave (the sequential specification does not apply)")
+        if sid in waiting:
+            waiting.remove(sid)
         if kind == "reader_start":
             result.append({"ev": "reader_start", "sid": sid, "sizes": event["sizes"], "acc": event["acc"], "rej": event["rej"]})
         elif kind == "row":
